@@ -311,6 +311,48 @@ theorem c06_constants_table :
   have h3 : majorityThreshold ≤ 1 / 2 := by decide +kernel
   cases s <;> simp only [Attainable, effThreshold] <;> first | exact h1 | exact h2 | exact h3
 
+/-- Readable instances of the criterion for the default configurations: MAJORITY is reached exactly when there are
+    enough active votes and strictly more permits than blocks; the default count strategy exactly when permits are a
+    strict majority of the whole colony (idle voters count against); UNANIMOUS exactly when there is a permit and no
+    block. -/
+theorem c06_default_criteria_in_counts (minVoters : Nat) (voters : List Voter) :
+    ((runVote ⟨.majority, none, minVoters⟩ voters).reached = true ↔
+      minVoters ≤ nP (collect voters) + nB (collect voters) ∧ nB (collect voters) < nP (collect voters)) ∧
+    ((runVote ⟨.threshold, none, minVoters⟩ voters).reached = true ↔
+      minVoters ≤ nP (collect voters) + nB (collect voters) ∧ voters.length < 2 * nP (collect voters)) ∧
+    ((runVote ⟨.unanimous, none, minVoters⟩ voters).reached = true ↔
+      minVoters ≤ nP (collect voters) + nB (collect voters) ∧ nB (collect voters) = 0 ∧ 0 < nP (collect voters)) := by
+  have hmaj : majorityThreshold = 1 / 2 :=
+    le_antisymm c06_constants_table.2.2.2.2.2.2.2.2.2.2.2.2.1 c06_constants_table.2.2.2.2.2.2.2.2.2.2.2.2.2.2.2.1
+  have hnn : ∀ s, NonNegThreshold ⟨s, none, minVoters⟩ := by intro s t h; cases h
+  refine ⟨?_, ?_, ?_⟩
+  · rw [run_reached_iff]
+    apply and_congr_right; intro _
+    simp only [StratReached]
+    rw [count_share, shareGt_iff (by positivity) (by positivity) (effThreshold_nonneg const_facts.1 (hnn .majority))]
+    simp only [effThreshold, hmaj]
+    constructor
+    · intro h
+      have : (nB (collect voters) : Rat) < (nP (collect voters) : Rat) := by linarith
+      exact_mod_cast this
+    · intro h
+      have : (nB (collect voters) : Rat) < (nP (collect voters) : Rat) := by exact_mod_cast h
+      linarith
+  · rw [run_reached_iff]
+    apply and_congr_right; intro _
+    simp only [StratReached]
+    rw [thresholdCount_le_iff _ (hnn .threshold)]
+    simp only [CountMet]
+    omega
+  · rw [run_reached_iff]
+    simp only [StratReached]
+
+/-- e.g. three permits, two blocks, one failed voter: MAJORITY reached (3 > 2); the default count strategy is not
+    (3 of 6 is no strict majority of the colony) -/
+example : (runVote ⟨.majority, none, 1⟩ (List.replicate 3 (voterOf .permit 1 1) ++ List.replicate 2 (voterOf .block 1 1) ++ [voterOf .raises 1 1])).reached = true ∧
+    (runVote ⟨.threshold, none, 1⟩ (List.replicate 3 (voterOf .permit 1 1) ++ List.replicate 2 (voterOf .block 1 1) ++ [voterOf .raises 1 1])).reached = false := by
+  decide +kernel
+
 /-! ### The un-stubbed colony: real `BioAgent` voters (core/agent.py) -/
 
 /-- Un-stubbed colony (real `BioAgent` voters of core/agent.py): a proposal that carries a dangerous marker or that
